@@ -11,8 +11,15 @@
        schedule of unbounded length including caller cancellation at any point, by certified exhaustive exploration;
    (b) kind G, all programs and schedules: a Ready task is always queued (no lost wake-up at the loop level), cancellation never
        hangs (C13), and a CancelledError ends a task in one step.
-   The general theorem over the fragment of plain DAGs is not proved (DESIGN 4, C02): on programs outside the catalogue the
-   property is decided by the correspondence check and the deadlock oracle on the implementation only. *)
+   (c) kind F, ALL plain programs (built graph without switch node and one-of head, bodies that never ask for another iteration;
+       any number of nodes, any shape, retry / default settings, execution modes, any event managers and artifact store -- gated or
+       not, raising or not) and ALL schedules incl. caller cancellation: no reachable state is deadlocked
+       (C02_on_plain_programs_no_deadlock, proved in Proofs/PlainDeadlock.v by invariants over configuration-level reachability).
+       Its two hypotheses on the library orders (the launch order is duplicate-free, lists the output and every dependency of a
+       node before it; the notified successors include every consumer) are decidable (valid_orders_b) and are what the model side
+       checks of every order recorded from networkx. The bound on consecutive loop steps (third conjunct) is kind E only.
+   For switch / one-of / recurrent programs outside the catalogue the property is decided by the correspondence check and the
+   deadlock oracle on the implementation only. *)
 From MLPE Require Import Engine.Run Proofs.ExecLemmas Proofs.Evolve Proofs.ReadyInv Explore.StateEq Explore.Erase Explore.Explorer Explore.Safe
      Catalogue.Programs Catalogue.Certified Proofs.CertLemmas.
 
@@ -47,3 +54,23 @@ Print Assumptions C02_no_lost_wakeup_at_loop_level_partial.
 Example C02_catalogue_nontrivial :
   length catalogue_clean >= 33 /\ length catalogue_faulty = 2.
 Proof. split; [cbn; lia|reflexivity]. Qed.
+
+
+(* ---- kind F: all plain programs, all schedules --------------------------------------------------------------------------- *)
+From MLPE Require Import Proofs.PlainWorld Proofs.PlainLive Proofs.PlainDeadlock.
+
+Theorem C02_on_plain_programs_no_deadlock :
+  forall P, plain_prog P -> valid_orders P -> forall st, reachable P st -> deadlocked st = false.
+Proof. exact plain_programs_never_deadlock. Qed.
+Print Assumptions C02_on_plain_programs_no_deadlock.
+
+(* the hypotheses are met: the rhombus with gated event managers, a retry node with a default, and a five-node DAG with a
+   gated write-once store and a failing node *)
+Example C02_plain_hypotheses_hold :
+  (plain_prog cat_rhombus_gated_events /\ valid_orders cat_rhombus_gated_events) /\
+  (plain_prog cat_retry_exhausted_default /\ valid_orders cat_retry_exhausted_default) /\
+  (plain_prog cat_rhombus_fail /\ valid_orders cat_rhombus_fail).
+Proof.
+  repeat split; try (apply valid_orders_b_sound; vm_compute; reflexivity); try (vm_compute; reflexivity);
+    try (apply dsl_body_clean; vm_compute; reflexivity).
+Qed.
